@@ -20,7 +20,7 @@ ASSUMPTIONS = [
     "real arithmetic: 'ends at the target to within a few rounding units' is decided as |t_last - target| <= 64*eps*max(1,|t0|,|target|) over R",
     "|tf-t0| <= N*|dt0| (unwinding bound), 1/64 <= |dt0| <= 256, |tf-t0| >= 1/64, |t0|,|tf| <= 64",
     "user rhs = arbitrary function (fresh symbols per call); implicit families: contract stub verdict_root for optimizer.nonlinear_roots "
-    "(arbitrary root, success, prec=0); adaptive families: contract stub ctrl for integrator.update_timestep (corr in (0.2,2), redo iff corr<0.81)",
+    "(arbitrary root, success, prec=0); adaptive families: contract stub ctrl for integrator.update_timestep (corr in (0.2,2.6), redo iff corr<0.81)",
 ]
 BOUNDS = {
     "quick": dict(N=3, calls="<=2 integrate calls", families=list(spans.FAMILIES)),
